@@ -10,15 +10,21 @@ WITNESS = ("WFreshAfterExpiry", "WExpireSeveral", "WDnsReleaseOthersLive", "WSen
            "WErrReadOthersLive", "WSentAfterError", "WReplyWhileLeftParked", "WLastSurvivesTick",
            "WReplyDroppedByClient", "WDnsDoneThoughDropped")
 # flows {1,2,3}: the mirror pair + the DNS flow; flows {3,4,5}: DNS, a second flow of the same client, the unconnectable one
+# the configurations whose histories carry empty payloads (EmptyOn = 0 | 1) must show an empty datagram
+# sent, delivered, keeping its flow alive and completing a plain-DNS flow
+EMPTY_W = ("WEmptyDatagramSent", "WEmptyReplyDelivered", "WEmptyReplyKeepsFlowAlive", "WEmptyAnswerCompletesDns")
 MC_RUNS = {
     False: [("MCUdpMux.quick.cfg", IMPL + ENV + WITNESS + ("WExpireWhileMirrorLives",)),
-            ("MCUdpMux.quick2.cfg", IMPL + ENV + WITNESS + ("SockOpenErr", "NewConnErr", "WConnErrOthersLive"))],
+            ("MCUdpMux.quick2.cfg", IMPL + ENV + WITNESS + EMPTY_W + ("SockOpenErr", "NewConnErr", "WConnErrOthersLive"))],
     True: [("MCUdpMux.thorough.cfg", IMPL + ENV + WITNESS + ("WExpireWhileMirrorLives",)),
-           ("MCUdpMux.thorough2.cfg", IMPL + ENV + WITNESS + ("SockOpenErr", "NewConnErr", "WConnErrOthersLive"))],
+           ("MCUdpMux.thorough2.cfg", IMPL + ENV + WITNESS + ("SockOpenErr", "NewConnErr", "WConnErrOthersLive")),
+           # the configuration that carries the empty payloads (the deeper ones would double)
+           ("MCUdpMux.quick2.cfg", IMPL + ENV + WITNESS + EMPTY_W + ("SockOpenErr", "NewConnErr", "WConnErrOthersLive"))],
 }
 # what the executions of the real multiplexer must have exercised (counters of the harness)
 MUST_SEE = ("expired_flows", "dns_done", "socket_errors_read", "send_errors_any", "connect_errors", "client_got", "peer_got",
-            "client_dropped", "metric_out", "metric_in")
+            "client_dropped", "metric_out", "metric_in",
+            "empty_to_peer", "empty_to_client", "one_octet_to_client", "largest_to_peer", "largest_to_client", "empty_dns_answer")
 
 
 def sig_of(lines, run_start, k):
@@ -88,17 +94,20 @@ S5_ENV = ("EnvDgram", "EnvReply", "EnvRelay", "EnvRefuse", "IcmpLands", "IcmpLan
 S5_WITNESS = ("WExpireLeavesSiblings", "WExpireLeavesOneSibling", "WExpireLastReleases", "WDnsLeavesSiblings",
               "WDnsLeavesOneSibling", "WDnsLastReleases", "WSiblingUsedAfterClose", "WTwoAssociations",
               "WErrorClosesSeveral", "WRefusedThenOk", "WReplyAfterFlowEnded")
+S5_EMPTY_W = ("WEmptyDatagramSent", "WEmptyReplyDelivered", "WEmptyAnswerCompletesDns")
 # flows {1,3} of one source with the SOCKS5 server allowed to hold its UDP ASSOCIATE reply: the tick cancels the handshake
 S5_HOLD = ("MCUdpMuxSocks.hold.cfg", ("AssocOpenStart", "AssocOpenDone", "OpenCancelled", "NewConnCancelled", "EnvHold",
-                                      "WCancelledThenFresh", "InsertPipeEntry", "Tick", "Expire", "DnsDone"))
+                                      "WCancelledThenFresh", "InsertPipeEntry", "Tick", "Expire", "DnsDone") + S5_EMPTY_W)
 S5_MC = {
     False: [("MCUdpMuxSocks.quick.cfg", S5_IMPL + S5_ENV + S5_WITNESS), S5_HOLD],
     True: [("MCUdpMuxSocks.thorough.cfg", S5_IMPL + S5_ENV + S5_WITNESS), S5_HOLD,
            # one flow per client source, six operations: an association error while the other source's lives
            ("MCUdpMuxSocks.thorough2.cfg", tuple(a for a in S5_IMPL if a not in ("AssocAddPeer", "DnsDone", "DnsPeerClosed", "DnsAssocRelease"))
-            + S5_ENV + ("WErrorOtherSourceLives", "WTwoAssociations", "WExpireLastReleases", "WRefusedThenOk"))],
+            + S5_ENV + ("WErrorOtherSourceLives", "WTwoAssociations", "WExpireLastReleases", "WRefusedThenOk",
+                        ))],
 }
-S5_MUST_SEE = ("handshake_cancelled_by_tick", "assoc_open", "assoc_refused", "assoc_add_peer", "peer_closed_sibling_left", "assoc_release", "assoc_error",
+S5_MUST_SEE = ("empty_to_peer", "empty_to_client", "one_octet_to_client", "largest_to_peer", "largest_to_client", "empty_dns_answer",
+               "handshake_cancelled_by_tick", "assoc_open", "assoc_refused", "assoc_add_peer", "peer_closed_sibling_left", "assoc_release", "assoc_error",
                "s5_send_err", "expired_flows", "dns_done", "client_got", "client_dropped", "peer_got", "metric_out", "metric_in")
 
 
@@ -243,6 +252,7 @@ def run(ctx):
                  "S5Send, invariants AssocIffLive/SiblingsUndisturbed/NoEmptyAssoc/GaugeExact (one guard per association)."),
     }
     return ctx.finish("model_checking", cov, assumptions=[
+        "payload lengths: the models use {0, f} octets for flow f (which one is fixed by the parity of the operation's position); the real runs use 0, 1, 5..30 and the largest datagram the loopback sockets carry (65507 direct, 65497 behind the 10-octet SOCKS5 header), chosen by the datagram's number; an empty or one-octet datagram is identified by order (oldest outstanding of that label and length)",
         "bounded model: 3 flows per exhaustive configuration (two configurations), T = 4 ticks, <= 4 (quick) / 5 (thorough) environment operations, horizon 6 ticks, <= 2 queued datagrams",
         "time does not advance while the left pipe is parked in the first send on a fresh socket (one reactor turn); a tick cancelling that send (the datagram is lost, the tables stay consistent) is not explored. The awaited on_new_udp_connection of the SOCKS5 upstream IS explored: the in-process server holds its reply across expiry ticks (Hold/Release)",
         "the downstream sink of the harness never blocks (it answers Sent, or Dropped while the client is stalled); the downstream source is cancel-safe",
